@@ -174,7 +174,9 @@ def body(chk):
             chk.violation(f"schedule:{clause}:{task['scenario']}", f"[{task['scenario']}] realised schedule {tr['realised']} rejected: {clause}; "
                           f"{[l for l in tr['lines'] if l['e'] == 'ret']}", {"task": task, "script": tr["script"], "trace": tr["lines"]})
     # negative control: a realised trace with a read moved to another thread's offset must be rejected
-    t0 = next(tr for res in results for tr in res["traces"] if sum(1 for l in tr["lines"] if l["e"] == "read") >= 2)
+    t0 = next((tr for res in results for tr in res["traces"] if sum(1 for l in tr["lines"] if l["e"] == "read") >= 2), None)
+    if t0 is None:
+        raise checklib.Machinery("no recorded schedule contains two read events: the loads are not observed by the tracing filesystem")
     neg = os.path.join(chk.scratch, "neg.ndjson")
     with open(neg, "w") as f:
         f.write(json.dumps({"e": "hdr", "tid": 1}) + "\n")
